@@ -38,7 +38,7 @@ META = {
         'judged_definition', 'judged_ctx_eq', 'judged_ctx_ne', 'judged_crc32', 'judged_agreement',
         'aliasing_sweeps', 'live_definitions_compared', 'followup_edits_that_changed_target',
         'derivation_rejected_for_conflict', 'ctx_eq_true', 'ctx_eq_false', 'involutions_checked',
-        'crc32_with_encoding', 'large_derivation_sessions'],
+        'crc32_with_encoding', 'large_derivation_sessions', 'scripted_cross_definition_histories'],
     'shards': {'quick': 16, 'thorough': 16},
     'exhaustive': {'thorough': 'all 113 x 113 ordered pairs of definitions over {a,b}x{p,q} x all derivations'},
     'assumptions': ['comparison of a context with a non-context is out of scope',
@@ -77,16 +77,25 @@ class LightMutator(c13.MutatorMonitor):
             set_model(d, TableModel(*pre))
         elif got != model.triple():
             if expected[0] == 'ok':
-                COL.count('receiver_step_mismatch_left_to_C13')
+                # the step itself went wrong on a definition that was derived from / is the source of
+                # another one: shared mutable state shows up exactly like this (C13 judges isolated
+                # definitions and stays silent there)
+                COL.violation(self.op, f'{self.op}:step-on-source-or-derivative-differs-from-model',
+                              model.triple(), got, {'before': pre, 'args': [core.jsonable(a) for a in self._args]})
             set_model(d, TableModel(*got))
         if got != pre:
             COL.count('edits_that_changed_target')
         sweep(exclude={id(d)})
 
     def after(self, token, args, kwargs, result):
+        self._args = args[1:]
         self._sync(token)
 
     def raised(self, token, args, kwargs, exc):
+        self._args = args[1:]
+        if token is not None and token[3][0] == 'ok':
+            COL.violation(self.op, f'{self.op}:raised-on-source-or-derivative-although-the-model-accepts',
+                          token[1].triple(), repr(exc), {'before': token[2], 'args': [core.jsonable(a) for a in args[1:]]})
         self._sync(token)
 
 
@@ -277,6 +286,8 @@ def cases(tier, seed, spec):
         yield {'kind': 'random', 'n': r}
     for r in range(32 if tier == 'quick' else 400):
         yield {'kind': 'large', 'n': r}
+    for r in range(120 if tier == 'quick' else 2000):
+        yield {'kind': 'script', 'n': r}
     yield from (dict(c, kind='ctx') for c in gen.ctx_stream(tier, seed, with_wide=False, scale=.5 if tier == 'quick' else .2))
 
 
@@ -408,6 +419,56 @@ def run_large(concepts, case, spec):
     COL.count('large_derivation_sessions')
 
 
+def run_script(concepts, case, spec):
+    """Multi-step histories across a source and its derivative: the source is edited (renamed, moved)
+    *before* deriving, then both sides rename / move / remove the same labels in turn."""
+    D = concepts.Definition
+    rng = random.Random(f"{spec['seed']}/c14script/{case['n']}")
+    from .c13 import fresh
+    o = ['a', 'b', 'c', 'd'][:rng.randint(2, 4)]
+    p = ['p', 'q', 'r'][:rng.randint(1, 3)]
+    x = D(o, p, [tuple(rng.random() < .5 for _ in p) for _ in o])
+    y0 = D(o[:2] + ['e'], p[:1] + ['s'], [tuple(rng.random() < .5 for _ in range(2)) for _ in range(3)])
+    # 1. edits on the source before deriving (these may create lazily built internal indexes)
+    for _ in range(rng.randint(1, 3)):
+        k = rng.randrange(4)
+        if k == 0:
+            call(x.rename_object, fresh(rng.choice(x.objects)), f'n{rng.randrange(99)}')
+        elif k == 1:
+            call(x.move_object, rng.choice(x.objects), rng.randrange(len(x.objects)))
+        elif k == 2:
+            call(x.rename_property, rng.choice(x.properties), f'm{rng.randrange(99)}')
+        else:
+            call(x.move_property, rng.choice(x.properties), rng.randrange(len(x.properties)))
+    # 2. derive
+    ders = [lambda: x.copy(), lambda: x.union(y0, ignore_conflicts=True), lambda: x.intersection(y0, True),
+            lambda: x.take(list(x.objects)[::-1], reorder=rng.random() < .5), lambda: x.take(), lambda: x.transposed(),
+            lambda: x.inverted(), lambda: x | x, lambda: -(-x)]
+    y = call(rng.choice(ders))
+    if y is RAISED or not isinstance(y, D):
+        return
+    # 3. both sides edit the same labels in turn
+    for step in range(rng.randint(2, 5)):
+        for side in ((x, y) if step % 2 == 0 else (y, x)):
+            names_o, names_p = list(side.objects), list(side.properties)
+            k = rng.randrange(6)
+            if k == 0 and names_o:
+                call(side.rename_object, names_o[0], f'z{step}{rng.randrange(9)}')
+            elif k == 1 and names_o:
+                call(side.move_object, names_o[-1], 0)
+            elif k == 2 and names_p:
+                call(side.rename_property, names_p[-1], f'y{step}{rng.randrange(9)}')
+            elif k == 3 and names_p:
+                call(side.move_property, names_p[0], len(names_p) - 1)
+            elif k == 4 and names_o:
+                call(side.remove_object, names_o[rng.randrange(len(names_o))])
+            else:
+                call(side.__setitem__, (rng.choice(['a', 'b', 'new']), rng.choice(['p', 'new-p'])), rng.random() < .5)
+    with core.monitor_code():
+        sweep()
+    COL.count('scripted_cross_definition_histories')
+
+
 def run_ctx(concepts, case, spec):
     C, D = concepts.Context, concepts.Definition
     rng = common.rng_for(case, spec)
@@ -505,5 +566,7 @@ def run_case(concepts, case, spec):
         run_random(concepts, case, spec)
     elif case['kind'] == 'large':
         run_large(concepts, case, spec)
+    elif case['kind'] == 'script':
+        run_script(concepts, case, spec)
     else:
         run_ctx(concepts, case, spec)
